@@ -134,7 +134,20 @@ def check_raster(c, cl):
             import cv2
             tmp = tempfile.mkdtemp(prefix="c19-")
             path = os.path.join(tmp, "map.png")
-            cv2.imwrite(path, img)
+            if c.get("reload", True):
+                # another image is installed at this path and loaded first; then
+                # the real one replaces it with the SAME modification time (cp -p,
+                # archive extraction, coarse timestamps): the map must hold what
+                # the file holds when it is loaded
+                other = (img.max() - img[::-1, ::-1] + (1 if img.max() == img.min() else 0)).astype(img.dtype)
+                cv2.imwrite(path, other)
+                st0 = os.stat(path)
+                RasterHeightMap.from_path(path).get_depth_at(0, 0)
+                cv2.imwrite(path, img)
+                os.utime(path, ns=(st0.st_atime_ns, st0.st_mtime_ns))
+                cl.add("file_replaced_with_same_mtime")
+            else:
+                cv2.imwrite(path, img)
             hm = RasterHeightMap.from_path(path)
             cl.add("raster_from_png")
         else:
@@ -293,6 +306,24 @@ def check_sparse(c, cl):
         got = float(hm.get_depth_at(x, y))
         if got != 0.0:
             raise Violation(f"sparse get_depth_at({x}, {y}) = {got!r} outside the data")
+    # paths that start and end exactly ON stored samples (hull vertices included):
+    # their ends carry the stored heights, as get_depth_at does there
+    for i in range(len(pts)):
+        j = (i + 1) % len(pts)
+        for (a, za), (b, zb) in (((pts[i], zs[i]), (pts[j], zs[j])),
+                                 ((pts[j], zs[j]), (pts[i], zs[i]))):
+            if math.dist(a, b) / tol > 400:
+                continue
+            r = hm.sample_path([a[0], a[1], b[0], b[1]])
+            for end, q, zq in ((r[0], a, za), (r[-1], b, zb)):
+                if tuple(end[:2]) != q:
+                    raise Violation(f"sparse sample_path({a + b}): end {tuple(end[:2])} is not "
+                                    f"the requested line end {q}")
+                if abs(float(end[2]) - scale * zq) > eps:
+                    raise Violation(f"sparse sample_path({a + b}) tol={tol}: the end on the stored "
+                                    f"sample {q} carries {float(end[2])!r}, stored height "
+                                    f"{zq!r} x scale {scale!r}")
+    cl.add("path_between_stored_samples")
     # path between two convex combinations (possibly leaving the hull)
     (f1, f2) = c["line_f"]
     p1 = (cx + (pts[1][0] - cx) * f1[0] + (pts[2][0] - cx) * f1[1],
